@@ -51,7 +51,7 @@ def parse_c_sig(c):
 
 
 def gen_harness(unit):
-    out = ['#include "nitro_rt.h"\n#include "contracts.h"\n#include "prelude_gen.h"\n',
+    out = ['#include "nitro_rt.h"\n#include "members_gen.h"\n#include "contracts.h"\n#include "prelude_gen.h"\n',
            "int nitro_exc;\nsize_t g_w, g_n;\nsize_t g_in[16];\n"
            "#ifdef NITRO_UNIT_GLOBALS\nNITRO_UNIT_GLOBALS\n#endif\n"
            "#ifndef NITRO_HAVOC_UNIT\n#define NITRO_HAVOC_UNIT\n#endif\n"
@@ -254,6 +254,10 @@ def run_check(prop, a, bdir, seed, t0):
         har_c = os.path.join(ud, uname + "_harness.c")
         open(gen_c, "w").write(gen)
         open(os.path.join(ud, "prelude_gen.h"), "w").write("/* generated from /repo on this run */\n" + unit.shared_decls)
+        with open(os.path.join(ud, "members_gen.h"), "w") as fh:
+            fh.write("/* scalar data members found in /repo's classes on this run that the model structs do not name */\n")
+            for st, decls in sorted(getattr(unit, "extra_members", {}).items()):
+                fh.write("#define NITRO_EXTRA_MEMBERS_%s %s\n" % (st, decls))
         open(har_c, "w").write(gen_harness(unit))
         write_kf_header(os.path.join(ud, "kf_gen.h"), known)
         # enforcement switches (input recording is active only in the function being enforced)
